@@ -255,6 +255,19 @@ def gen_c17(tier, rng):
                 ops.append("dec d pending")
             cases.append(Case("c17", ops, nontrivial=L > 1, tags=("exh-hist%d" % L,)))
     cases += random_histories(tier, rng, 400 if tier == "quick" else 5000, with_pending=True)
+    # orphan continuation segments whose header fields are what a DEFAULT-CONSTRUCTED table entry would "expect" (the entry that
+    # operator[] inserts for an endpoint with nothing in progress): message type 0 / 1, version 1, counter 0 / 1, every continuation
+    # flag, payloads shorter than, equal to and longer than a message header.  Nothing may stay pending and nothing may be delivered.
+    for mt in (0, 1):
+        ops = []
+        for ver in (1, 2):
+            for seq in (0, 1, 2):
+                for flag in (0x08, 0x0C):
+                    for n in (0, 1, 15, 16, 17, 64):
+                        ep = (rng.getrandbits(16), rng.getrandbits(8))
+                        fr = proto.frame_header(ver, ep[0], mt, ep[1], seq) + proto.message(rng.getrandbits(64), rng.getrandbits(32), flag, 0x08, proto.rand_bytes(rng, n))
+                        ops += [feed(fr), "dec d pending"]
+        cases.append(Case("c17", ops, nontrivial=True, tags=("orphan-matching-default-entry",)))
     # the same histories answered by the LOW-LEVEL decoder model (DecoderLL.lean, proved to refine the model in Props/C17b.lean):
     # the harness treats feedll / pendingll as feed / pending, so this compares the transcription of decoder.cpp with the real decoder
     ll = []
@@ -963,6 +976,32 @@ def prefix_closure_cases(tier, rng, name):
     return cases
 
 
+def gen_overdeclared_segments(tier, rng, n=None):
+    """A valid first segment, then a continuation segment (matching version, message type and counter + 1) whose declared payload
+    length EXCEEDS the bytes its frame carries (exactly sized buffers: a decoder that trusts the declared length copies what lies
+    behind the frame into the reassembled message), also after an intermediary segment, and with the excess ranging from 1 byte to
+    the 16-bit maximum.  Expected: the continuation is rejected and the reassembly released; nothing is delivered."""
+    cases = []
+    for _ in range(n if n is not None else (40 if tier == "quick" else 400)):
+        ver, dev, stream, mt = rng.randrange(1, 256), rng.getrandbits(16), rng.getrandbits(8), rng.choice([1, 1, 3, 2])
+        seq = rng.choice([rng.getrandbits(16), 65534, 65535])
+        ptype = rng.choice([0x08, 0x01, 0x0A, 0xFE])
+        ts, idw = rng.getrandbits(64), rng.getrandbits(32)
+        first = proto.frame_header(ver, dev, mt, stream, seq) + proto.message(ts, idw, 0x04, ptype, proto.rand_bytes(rng, rng.choice([8, 32, 100])))
+        ops = [feed(first)]
+        k = 1
+        if rng.random() < 0.4:
+            ops.append(feed(proto.frame_header(ver, dev, mt, stream, (seq + k) & 0xFFFF) + proto.message(ts, idw, 0x08, ptype, proto.rand_bytes(rng, 16))))
+            k += 1
+        have = rng.choice([0, 1, 8, 40])
+        declared = have + rng.choice([1, 2, 16, 192, 1000, 0xFFFF - have])
+        flag = rng.choice([0x0C, 0x0C, 0x08])
+        ops.append(feed(proto.frame_header(ver, dev, mt, stream, (seq + k) & 0xFFFF) + proto.message(ts, idw, flag, ptype, proto.rand_bytes(rng, have), length=declared)))
+        ops += ["dec d pending", feed(proto.frame_header(ver, dev, mt, stream, (seq + k + 1) & 0xFFFF) + proto.message(ts, idw, 0x0C, ptype, b"\x01\x02")), "dec d pending"]
+        cases.append(Case("c02seg", ops, nontrivial=True, tags=("over-declared-continuation",)))
+    return cases
+
+
 def gen_c02(tier, rng):
     cases = []
     # well-formed frames of every kind truncated at every offset, fields corrupted
@@ -1008,6 +1047,7 @@ def gen_c02(tier, rng):
         ops.append("dec d reprint")
         ops.append("dec d pending")
         cases.append(Case("c02", ops, nontrivial=True, tags=(tag,)))
+    cases += gen_overdeclared_segments(tier, rng)
     # every typed payload kind with a payload shorter than its header as the LAST message of an exactly sized buffer
     # (a validator that touches a header field before its size check reads past the buffer here)
     for ty in sorted(set(proto.TY.values())):
